@@ -723,7 +723,7 @@ pub fn plan_for(id: &str, tier: &str) -> Option<Plan> {
             p.n_random = n(400, 5000);
             p.profile.w_kind = [60, 3, 25, 4, 8];
             p.profile.valid_add_pct = 85;
-            p.required = vec!["urgency:High", "urgency:Low", "urgency:None", "since:0", "since:6", "plant:sweep-versions:t=overflowing-u32", "plant:sweep-days:t=overflowing-i64", "plant:sweep-versions:t=0", "plant:sweep-days:t=1", "plant:sweep-versions:t=small-odd:Low", "plant-executable:sweep-versions:t=0:High", "plant-executable:sweep-days:t=0:High"];
+            p.required = vec!["urgency:High", "urgency:Low", "urgency:None", "since:0", "since:6", "plant:sweep-versions:t=overflowing-u32", "plant:sweep-days:t=overflowing-i64", "plant:sweep-versions:t=0", "plant:sweep-days:t=1", "plant:sweep-versions:t=small-odd:Low", "plant-executable:sweep-versions:t=0:High", "plant-executable:sweep-days:t=0:High", "pinned-upgrade:first-add-version:"];
             p.rule = "(a) planted states: for each configuration (targets 0, 1, odd, large, values whose 3/2 multiple overflows u32/i64, type extremes) snapshot ages / versions-since counters around each threshold are planted through the public storage API, one real AddVersion is issued through library and HTTP on both backends and its urgency compared with the wide-integer specification, monotonicity and threshold order; (b) real histories on both backends (incl. reopen): after every operation the stored versions-since counter must equal the number of versions accepted since the snapshot was stored, and every accepted AddVersion's urgency must equal the exact-arithmetic specification for (targets, snapshot age, versions since).";
         }
         _ => return None,
